@@ -175,7 +175,7 @@ fn layer_real_pool(ctx: &Ctx) {
                         continue;
                     }
                     for seed in 0..seeds {
-                        let cfg = Config { method, spec: *spec, iters, max_reg: 0.0, script: BTreeMap::new(), fallback: Fallback::Hash(ctx.seed ^ (gi as u64) << 8 ^ seed) };
+                        let cfg = Config { method, spec: *spec, iters, max_reg: 0.0, script: BTreeMap::new(), fallback: Fallback::Hash(crate::explore::mix(crate::explore::mix(ctx.seed) ^ (gi as u64) << 8 ^ seed)) };
                         let seq = match sequential(tree, &game, &al, &cfg) {
                             Ok(seq) => seq,
                             Err(msg) => {
